@@ -920,9 +920,96 @@ def check_scoring_validator(ctx, repo, callsig):
         good = None
         if info is not None and info[0] == "class":
             hit = repo.lookup_method(info[1], "__call__")
-            good = hit is not None and astq.param_names(hit[1], skip_self=True)[:2] == ["y_true", "y_pred"] and not d.a[1] and not d.a[2]
+            good = hit is not None and astq.param_names(hit[1], skip_self=True)[:2] == ["y_true", "y_pred"]
         ctx.check(good, "R1", "check_scoring:default-metric", "default metric %s() is called as metric(y_true, y_pred)" % name.rsplit(".", 1)[-1],
                   "default scoring object %s has no __call__(y_true, y_pred)" % show(d), loc)
+        # model conformance: "if None, uses sMAPE" (evaluate / check_scoring docs) -- decided from the constructor chain of the
+        # class as it is called here, with its *current* defaults
+        if info is not None and info[0] == "class":
+            import ast as _ast
+            k = info[1]
+            hit = repo.lookup_method(k, "__init__")
+            verdict, detail = None, "constructor of the default metric is not interpretable"
+            if hit is not None:
+                b = bind_terms(hit[1], *call_args(d)) or {}
+                args = {}
+                for pn, dflt in astq.param_defaults(hit[1]).items():
+                    if isinstance(dflt, _ast.Constant):
+                        args[pn] = C(dflt.value)
+                args.update({kk: v for kk, v in b.items() if isinstance(v, T) and not kk.startswith(("*", "!"))})
+                ci = Interp(repo, policy=lambda kind, nm, target, fr: kind == "super" and nm == "__init__")
+                r2 = ci.run(hit[0].module, hit[1], args, cls=k, defcls=hit[0])
+                sym = {st.heap.get("symmetric") for st, _ in r2.returns}
+                fun = {st.heap.get("_func") for st, _ in r2.returns}
+                if not r2.unsupported and len(sym) == 1 and len(fun) == 1:
+                    sv, fv = sym.pop(), fun.pop()
+                    is_mape = isinstance(fv, T) and fv.op == "fn" and fv.a[0].endswith(".mean_absolute_percentage_error")
+                    if is_mape and is_const(sv, True, False) and isinstance(cval(sv), bool):
+                        verdict = cval(sv) is True
+                        detail = "scoring=None is scored with mean_absolute_percentage_error(symmetric=%r)" % cval(sv)
+                    else:
+                        detail = "default metric wraps %s with symmetric=%s" % (show(fv), show(sv))
+            ctx.check(verdict, "R4", "check_scoring:default-is-sMAPE", "scoring=None uses the symmetric MAPE (sMAPE), as evaluate() documents",
+                      detail + " -- evaluate() documents sMAPE as the default metric (the metric class's constructor default decides it)", loc)
+
+
+def check_duration_coercion(ctx, repo):
+    """Model conformance for the horizon evaluate() hands over: every forecaster converts the absolute test labels back to
+    steps with ``fh.to_relative(cutoff)`` -> ``_coerce_duration_to_int``.  For a collection of durations the result must be
+    computed from *every* element (a map over the elements or a vectorised expression of the whole index) -- a result built
+    from ``duration[0]`` and ``len(duration)`` assumes consecutive steps and mislabels horizons with gaps (fh=[1, 3])."""
+    rel = "sktime/utils/datetime.py"
+    mod = repo.module(rel)
+    f = repo.func(rel, "_coerce_duration_to_int")
+    params = astq.param_names(f)
+    dur = P(params[0])
+    it = Interp(repo)
+    r = it.run(mod, f, {})
+    loc = ctx.loc(mod, f)
+    coll = ("pandas.Index", "pandas.TimedeltaIndex", "pandas.PeriodIndex", "pandas.DatetimeIndex", "pandas.Int64Index")
+
+    def is_collection_path(pc):
+        for t, br in pc:
+            if not br:
+                continue
+            for x in subterms(t):
+                if is_call(x, fn("builtins.isinstance")) and len(x.a[1]) == 2 and x.a[1][0] == dur:
+                    kinds = x.a[1][1].a[0] if isinstance(x.a[1][1], T) and x.a[1][1].op == "tuple" else (x.a[1][1],)
+                    names = [k_.a[0] for k_ in kinds if isinstance(k_, T) and k_.op == "fn"]
+                    if names and all(n in coll for n in names):
+                        return True
+        return False
+
+    def uses_all_elements(t):
+        stack = [t]
+        while stack:
+            x = stack.pop()
+            if isinstance(x, tuple):
+                stack.extend(x)
+                continue
+            if not isinstance(x, T):
+                continue
+            if x == dur or (x.op == "elem" and strip_list(x.a[0]) == dur):
+                return True
+            if x.op == "sub" and x.a[0] == dur and is_const(x.a[1]):
+                continue  # a single element
+            if is_call(x, fn("builtins.len")):
+                continue  # the size only
+            stack.extend(x.a)
+        return False
+
+    n = 0
+    for st, t in r.returns:
+        if not is_collection_path(st.pc):
+            continue
+        n += 1
+        ctx.check(uses_all_elements(t), "R2", "_coerce_duration_to_int:elementwise[%d]" % n,
+                  "steps of a collection of durations are computed from every element",
+                  "for a collection of durations the steps are %s: built from single elements / the length only, i.e. steps are assumed "
+                  "consecutive -- a test window with gaps (fh=[1, 3]) is forecast for steps [1, 2] but labelled with the time points of 1 and 3"
+                  % show(t)[:160], loc)
+    if n == 0:
+        ctx.undecided("R2", "_coerce_duration_to_int:elementwise", "no return path for a pd.Index of durations found", loc)
 
 
 def check_cv_validator(ctx, repo):
@@ -978,6 +1065,8 @@ def run(ctx):
     ctx.assume("cv.split(y) yields (train, test) position arrays with test = cutoff + fh and cutoff = train[-1] (C01-R1), "
                "so a relative cv.fh has fh.min() == test[0] - train[-1]")
     ctx.assume("pandas .iloc[positions] selects exactly those rows; DataFrame.append / list.append add one row")
+    ctx.assume("forecasters turn the absolute horizon back into steps with fh.to_relative(cutoff) (C02); only the element-wise "
+               "shape of utils.datetime._coerce_duration_to_int is decided here, not the date arithmetic of pandas")
     ctx.assume("predict() does not move the forecaster's cutoff (C03-R2); BaseForecaster.fit/update/predict signatures are "
                "the ones every forecaster implements")
     callsig = metric_call_signature(ctx, repo)
@@ -989,7 +1078,8 @@ def run(ctx):
     check_strategy_validator(ctx, repo, getattr(A, "strategy_strings", set()))
     check_scoring_validator(ctx, repo, callsig)
     check_cv_validator(ctx, repo)
+    check_duration_coercion(ctx, repo)
     ctx.floor("R1", 9)
-    ctx.floor("R2", 10)
+    ctx.floor("R2", 12)
     ctx.floor("R3", 11)
-    ctx.floor("R4", 8)
+    ctx.floor("R4", 9)
